@@ -23,6 +23,9 @@ extern int verif_caught_type;
 void verif_unreachable(void);
 void verif_trap(void);
 void verif_unmodelled(const char* name);
+uint8_t* verif_std_exc_what(uint8_t* self); /* model vtable entries of external std exception classes (rt_model.c) */
+void verif_std_exc_dtor(uint8_t* self);
+uint8_t* verif_atomic_addr(uint8_t* p); /* every atomic access goes through this (identity unless the sequentialiser is on) */
 static inline uint64_t verif_ctlz64(uint64_t x) { uint64_t n = 0; for (int i = 63; i >= 0; i--) { if ((x >> i) & 1) break; n++; } return n; }
 static inline uint32_t verif_ctlz32(uint32_t x) { uint32_t n = 0; for (int i = 31; i >= 0; i--) { if ((x >> i) & 1) break; n++; } return n; }
 static inline uint16_t verif_ctlz16(uint16_t x) { uint16_t n = 0; for (int i = 15; i >= 0; i--) { if ((x >> i) & 1) break; n++; } return n; }
